@@ -131,7 +131,15 @@ pub broadcast proof fn lemma_enc64_be64(s: Seq<u8>)
     lemma_enc32_be32(s.skip(4));
     assert(s.take(4) + s.skip(4).take(4) =~= s.take(8));
 }
+// bit-level spellings of the 16-octet block arithmetic, so that `x & 15` and `x >> 4` are understood like `x % 16`, `x / 16`
+pub broadcast proof fn lemma_and15(x: usize)
+    ensures #[trigger] (x & 15) == x % 16,
+{ assert((x & 15) == x % 16) by (bit_vector); }
+pub broadcast proof fn lemma_shr4(x: usize)
+    ensures #[trigger] (x >> 4) == x / 16,
+{ assert((x >> 4) == x / 16) by (bit_vector); }
 pub broadcast group group_be {
+    lemma_and15, lemma_shr4,
     lemma_be16_def, lemma_be32_range, lemma_be64_range, lemma_enc16_def, lemma_enc32_len, lemma_enc64_len,
     lemma_be16_enc16, lemma_be16_enc16_only, lemma_be32_enc32, lemma_be32_enc32_only,
     lemma_be64_enc64, lemma_be64_enc64_only, lemma_be16_prefix, lemma_be32_prefix, lemma_be64_prefix,
